@@ -95,3 +95,13 @@ package goja
 //@   timeout 60
 //@   exitvars a *arrayObject
 //@   ensures @denseTailNil [tail-stays-nil]
+
+// Sorting calls back into script (the comparator), which may shrink the array: the indices the sort
+// algorithm computed from the length it read at the start can be stale. The accessors it uses must
+// therefore tolerate any non-negative index (C07: storage independence; C01: no Go panic escapes).
+//@ func (*arrayObject).sortGet bounds
+//@   props C07
+//@   requires a != nil && i >= 0
+//@ func (*arrayObject).swap bounds
+//@   props C07
+//@   requires a != nil && i >= 0 && j >= 0
